@@ -4,7 +4,7 @@
    with library-generated names for the inner simplices) and every applicable request; the
    unbounded statement is tested by the oracle (evidence: tested_only). *)
 From Coq Require Import String ZArith Bool Arith List.
-From SV Require Import Names Rep Complex Homology Filtration Gen World Small Sweeps.
+From SV Require Import Names NamesFacts Rep Complex Homology Filtration Gen World Small Sweeps RepInv Shapes AddEffect CopyFaithful.
 
 (* building by basis gives exactly the non-empty subsets of the given simplices, a well-formed
    complex whose views agree *)
@@ -34,3 +34,31 @@ Print Assumptions C02_add_by_basis_upto4_partial.
 Theorem C02_subdivide_upto4_partial : forall c, In c complexes4 -> chk_subdiv (build c) = true.
 Proof. exact subdiv_upto4. Qed.
 Print Assumptions C02_subdivide_upto4_partial.
+
+(* EVERY HISTORY: adding by faces adds exactly one simplex -- under a name that was not there, of
+   order |fs|-1, with exactly the faces fs -- and every simplex that was there keeps its order, its
+   position, its faces and its basis *)
+Theorem C02_add_by_faces_exact_effect :
+  forall r fs id attr r' n, sinv r -> addSimplex r fs id attr = (r', Ok n) ->
+  containsSimplex r n = false /\ NoDup fs /\
+  orderOf r' n = Ok (length fs - 1) /\ (forall t, In t (faces r' n) <-> In t fs) /\
+  (forall s, containsSimplex r s = true ->
+     orderOf r' s = orderOf r s /\ indexOf r' s = indexOf r s /\ faces r' s = faces r s /\ basisOf r' s = basisOf r s) /\
+  (forall s, containsSimplex r' s = containsSimplex r s || name_eqb s n).
+Proof. exact addSimplex_effect. Qed.
+Print Assumptions C02_add_by_faces_exact_effect.
+
+(* bulk add without a renaming: every simplex of the source view arrives under its name with its
+   order and faces, the target's own simplices are untouched, membership = old + source *)
+Theorem C02_bulk_add_faithful :
+  forall (src : srcview) hp r st ns hp' r' st' ns',
+  sinv r -> addFrom_loop hp r RNone st src ns = (hp', r', st', Ok ns') ->
+  sinv r' /\
+  (forall s fs h, In (s, (fs, h)) src ->
+     containsSimplex r' s = true /\ orderOf r' s = Ok (length fs - 1) /\ (forall t, In t (faces r' s) <-> In t fs)) /\
+  (forall s, containsSimplex r s = true ->
+     containsSimplex r' s = true /\ orderOf r' s = orderOf r s /\ indexOf r' s = indexOf r s /\
+     faces r' s = faces r s /\ basisOf r' s = basisOf r s) /\
+  (forall s, containsSimplex r' s = containsSimplex r s || memn s (map fst src)).
+Proof. exact bulk_add_faithful. Qed.
+Print Assumptions C02_bulk_add_faithful.
